@@ -39,6 +39,7 @@ comparison callback is a consistent ordering.  Decided:
                the water masses of the solutions (a water-weighted amount divided by a water-weighted sum, accumulators
                classified from their own updates); divided by a plain sum of fractions the weights scale with the water mass and
                temperature / pressure of a mix depend on how much water the solutions hold
+  C15.unitfamilies  in convert_units every condition that names a unit family per litre (g/l, Mol/l, eq/l) names it per kg solution too
   C15.spreaddefaults  every member of the SOLUTION_SPREAD `defaults` object (block-level -temp, -density [calculate], -units, -redox, -pH,
                -pe, -water, -pressure, -isotope) is applied to the rows by spread_row_to_solution
 Not decided: unit conversion, density iteration, extensive/intensive scaling, mixing order, repeated definitions (all need the
@@ -424,6 +425,40 @@ def spreaddefaults_rule(P, R):
                         "SOLUTION block that states the same option" % fl["name"], file=f["file"], line=f["line"], function=f["q"])
 
 
+def unitfamilies_rule(P, R):
+    """"Equivalent descriptions ... units": concentrations are given per kg solution (`/kgs`) or per litre (`/l`) in grams, moles or
+    equivalents.  In convert_units every test that classifies a unit string by its amount unit treats the two bases alike: a condition
+    that names `<amount>/l` also names `<amount>/kgs` and vice versa (strstr literals of one if-condition, closed under swapping the
+    base).  A missing sibling drops that family from the solute-mass sum or from the gram-to-mole conversion."""
+    RULE = "C15.unitfamilies"
+    R.rule(RULE, "convert_units: every condition that names a unit family per litre names it per kg solution too (and vice versa)", minimum=2)
+    f = P.one("Phreeqc::convert_units")
+    where = dict(file=f["file"], function=f["q"])
+    n = 0
+    for x in T.walk(f["body"]):
+        if x[0] != "If":
+            continue
+        lits = [str(T.strip_casts(c[4][1])[3]).strip('"') for c in T.calls(x[2]) if T.callee_name(c) == "strstr" and len(c[4]) == 2 and T.strip_casts(c[4][1])[0] == "Lit"]
+        fam = [l for l in lits if l.endswith("/l") or l.endswith("/kgs")]
+        if len(fam) < 2:
+            continue
+        n += 1
+        inst = "cond@%d" % x[1]
+        miss = []
+        for l in fam:
+            amt, base = l.rsplit("/", 1)
+            other = amt + ("/kgs" if base == "l" else "/l")
+            if other not in lits:
+                miss.append((l, other))
+        if miss:
+            R.violation(RULE, inst, "the condition names `%s` but not `%s`: concentrations given in that unit are left out of this step (e.g. their mass does not enter the kgs -> kgw "
+                        "conversion), so the same solution described per litre and per kg solution gives different molalities" % miss[0], line=x[1], **where)
+        else:
+            R.ok(RULE, inst, "closed under /l <-> /kgs: %s" % ", ".join(sorted(fam)))
+    if n < 2:
+        R.anchor_missing(RULE, "convert_units: only %d unit-family conditions found" % n)
+
+
 def mixweights_rule(P, R):
     from .. import ratfun as RF
     from fractions import Fraction
@@ -505,6 +540,7 @@ def mixweights_rule(P, R):
 
 def run(P, R, tier):
     mixweights_rule(P, R)
+    unitfamilies_rule(P, R)
     spreaddefaults_rule(P, R)
     gfw_rule(P, R)
     addsol_rule(P, R)
